@@ -25,11 +25,13 @@ def main():
         n = struct.unpack('<I', hdr)[0]
         job = pickle.loads(inp.read(n))
         try:
+            import time
+            t0 = time.time()
             mod = importlib.import_module(job['mod'])
             res = getattr(mod, job['fn'])(**job.get('args', {}))
             if res is None:
                 res = {}
-            res = {'ok': True, 'result': res}
+            res = {'ok': True, 'result': res, 'wall': time.time() - t0}
         except BaseException as e:     # noqa
             res = {'ok': False, 'error': '%s: %s' % (type(e).__name__, e),
                    'harness': type(e).__name__ == 'HarnessError',
